@@ -43,21 +43,29 @@ def BOUNDED(tier, seed):
             fails.append({'key': 'constructor', 'summary': f'SlidingWindowTracker({k}) raised {ex!r} on the installed NumPy', 'k': k,
                           'observed': repr(ex)})
             continue
-        stream = [rng.randint(-9, 9) + 0.5 * i for i in range(3 * k + 2)]
-        for n, v in enumerate(stream, start=1):
+        streams = [[rng.randint(-9, 9) + 0.5 * i for i in range(3 * k + 2)],
+                   # a value of much larger magnitude passes through the window and leaves it again: the statistics are those of
+                   # the values IN the window, with no residue of values that have left it
+                   [1e17] + [1.0] * (3 * k + 1), [0.1] * k + [1e12] + [0.1] * (3 * k), [-1e15, 3.0] + [2.0, 4.0] * (2 * k)]
+        for stream in streams:
+          t = SlidingWindowTracker(k)
+          for n, v in enumerate(stream, start=1):
             t.update(v)
             evals += 1
-            distinct.add((k, n))
+            distinct.add((k, n, streams.index(stream)))
             last = stream[max(0, n - k):n]
-            m = sum(last) / len(last)
-            var = sum((x - m) ** 2 for x in last) / len(last)
+            m = math.fsum(last) / len(last)
+            var = math.fsum((x - m) ** 2 for x in last) / len(last)
             got = (t.mean, t.var, t.std, t())
-            if not (abs(got[0] - m) < 1e-9 and abs(got[1] - var) < 1e-9 and abs(got[2] - math.sqrt(var)) < 1e-9 and abs(got[3] - m) < 1e-9):
+            sc = max(1.0, max(abs(x) for x in last))
+            if not (abs(got[0] - m) < 1e-9 * sc and abs(got[1] - var) < 1e-9 * sc * sc and abs(got[2] - math.sqrt(var)) < 1e-9 * sc
+                    and abs(got[3] - m) < 1e-9 * sc):
                 fails.append({'key': 'ring_buffer', 'summary': f'k={k}: after {n} updates mean/var {got[:2]} but the last {len(last)} values '
                               f'{last} have mean/var {(m, var)}', 'k': k, 'stream': stream[:n], 'observed': {'got': got, 'expected': (m, var)}})
                 break
     return [{'name': 'last_k_statistics', 'evaluations': max(evals, 1), 'distinct_nontrivial': max(2, len(distinct)),
-             'rule': 'k in {1,2,3,5}, streams of length 3k+2 (beyond k and beyond 2k): mean/var/std/__call__ against the last min(n,k) values',
+             'rule': 'k in {1,2,3,5}, streams of length 3k+2 (beyond k and beyond 2k), one seeded plus three with a value of much larger magnitude '
+                     'passing through the window: mean/var/std/__call__ against the last min(n,k) values (tolerance relative to the window)',
              'bound': 'k <= 5, n <= 17', 'failures': fails}]
 
 
